@@ -132,8 +132,46 @@ func c06Gen(r *RNG, id string, prop string) *Case {
 		}
 	}
 	c.Set("mode", mode).SetInt("k", k).SetInt("dn", dn).SetInt("dd", dd)
+	if measure == "tn93" && tn93NearTie(c, nt) {
+		// two different targets whose tn93 distances agree to nine decimals: their order depends on the last
+		// bits of math.Log, which no model can decide - use the exact raw measure for this case instead
+		c.Set("measure", "raw")
+		c.Tag("tn93-near-tie-avoided")
+		if dd != 0 {
+			c.SetInt("dn", 0).SetInt("dd", 0)
+			if k == 0 {
+				c.SetInt("k", nt)
+			}
+		}
+	}
 	c.NonTrv = len(c.Tags) > 0
 	return c
+}
+
+// tn93NearTie: some query sees two targets with different sequences at the same printed tn93 distance
+func tn93NearTie(c *Case, nt int) bool {
+	res := runClosest(c, "table", nt, -1.0)
+	if res.status != "ok" {
+		return false
+	}
+	seqOf := map[string]string{}
+	tn, ts := strings.Split(c.Get("tnames"), ","), strings.Split(c.Get("tseqs"), ",")
+	for i := range tn {
+		seqOf[tn[i]] = strings.ToUpper(ts[i])
+	}
+	seen := map[string]string{} // query|distance -> sequence
+	for _, l := range strings.Split(res.out, "\n")[1:] {
+		f := strings.Split(l, ",")
+		if len(f) != 3 || f[2] == "NaN" || f[2] == "+Inf" || f[2] == "0.000000000" {
+			continue // undefined, infinite and exactly-zero distances are decided identically by any implementation
+		}
+		key := f[0] + "|" + f[2]
+		if prev, ok := seen[key]; ok && prev != seqOf[f[1]] {
+			return true
+		}
+		seen[key] = seqOf[f[1]]
+	}
+	return false
 }
 
 // pickMaxDist chooses a -d value: for raw/snp preferably exactly an occurring distance; for tn93 at
